@@ -5,13 +5,13 @@ from __future__ import annotations
 import ast
 
 from sa.cfg import dominators, reachable, reaches
-from sa.db import AnalysisError, FuncInfo, bind_args, dotted, src, walk_local
+from sa.db import AnalysisError, FuncInfo, ancestors, bind_args, dotted, src, walk_local
 from sa.effects import Effects, fmt_effect
 from sa.flow import defs_reaching, reaching_defs
 from sa.model import contains, enclosing, execute_impl_funcs, is_user_func_call, superstep_funcs
 from sa.variants import Variant, replace_once, sub_first, sub_once
 
-from .common import call_names, runner_no_raise, template_methods
+from .common import call_names, enclosing_facts, runner_no_raise, template_methods
 
 ID = "C02"
 EXPLANATION = (
@@ -340,6 +340,30 @@ def run(ctx) -> None:
                 parts.append(f"keyword sets differ for {k0}: sync {sorted(kw_diff[k0][0])} vs async {sorted(kw_diff[k0][1])}")
             msg = "; ".join(parts)
         rep.add("C02.R5", f"{label}:actions", ok, f"{fs[0].module.rel}:{fs[0].lineno}", msg)
+    # constructed raises of the execute loops happen under the same guards in both siblings
+    def raise_sigs(fs: list[FuncInfo]) -> dict[tuple, int]:
+        out: dict[tuple, int] = {}
+        for f in fs:
+            ldefs = db.local_defs(f)
+            for r in walk_local(f.node):
+                if not (isinstance(r, ast.Raise) and isinstance(r.exc, ast.Call)):
+                    continue
+                names = tuple(_norm((dotted(x.func) or "?").split(".")[-1]) for x in ast.walk(r.exc) if isinstance(x, ast.Call))
+                guards = []
+                for a, pol in enclosing_facts(r):
+                    if isinstance(a, ast.Name) and len(ldefs.get(a.id, [])) == 1 and getattr(ldefs[a.id][0], "value", None) is not None:
+                        a = ldefs[a.id][0].value
+                    calls = sorted(_norm((dotted(x.func) or "?").split(".")[-1]) for x in ast.walk(a) if isinstance(x, ast.Call))
+                    guards.append((",".join(calls) if calls else _norm(src(a)), pol))
+                in_else = any(isinstance(p_, (ast.For, ast.AsyncFor)) and any(contains(s_, r) for s_ in p_.orelse) for p_ in ancestors(r))
+                k = (names, tuple(sorted(guards)), in_else)
+                out[k] = out.get(k, 0) + 1
+        return out
+
+    ra, rb = raise_sigs([f for f in impls if not f.is_async]), raise_sigs([f for f in impls if f.is_async])
+    ok = ra == rb and bool(ra)
+    diff = [f"{'/'.join(k[0])} under {[g for g in k[1]] or 'no guard'}{' (loop exhausted)' if k[2] else ''}: sync x{ra.get(k, 0)}, async x{rb.get(k, 0)}" for k in sorted(set(ra) | set(rb), key=str) if ra.get(k, 0) != rb.get(k, 0)]
+    rep.add("C02.R5", "execute-loop:raise-guards", ok, impls[0].loc(), f"the execute loops raise the same errors under the same conditions ({sum(ra.values())} constructed raises)" if ok else f"the execute loops raise under different conditions — {'; '.join(diff)}: the same program completes under one runner and fails under the other")
     # validation order in run/map
     vnames = {"normalize_inputs", "validate_runner_compatibility", "validate_node_types", "resolve_runtime_selected", "validate_inputs", "_validate_on_missing", "_validate_error_handling", "validate_map_compatible", "generate_map_inputs"}
     for name in ("run", "map"):
